@@ -290,17 +290,22 @@ pub fn build<K: GK>(g: &G, env: &Env, cx: &Ctx) -> K {
             GoalCast::cast_into(proto_vulcan::operator::everyg::everyg(ForOperatorParam::new(coll, f)))
         }
         G::Project(vars, body) => {
-            let mut env2 = env.clone();
-            let mut pvars = vec![];
-            for v in vars {
-                let p: PTerm = LTerm::projection(env_get(env, *v));
-                env_set(&mut env2, *v, p.clone());
-                pvars.push(p);
-            }
-            let lists: Vec<Vec<K>> = body.iter().map(|g| vec![build::<K>(g, &env2, cx)]).collect();
-            let refs: Vec<&[K]> = lists.iter().map(|v| v.as_slice()).collect();
-            let body: K = GoalCast::cast_into(InferredConj::<SimUser, Eng, K>::from_conjunctions(&refs));
-            GoalCast::cast_into(Project::<SimUser, Eng, K>::new(pvars, body))
+            // as the macro lays it out: the body is built per reach from the projected values
+            let pvars: Vec<PTerm> = vars.iter().map(|v| env_get(env, *v)).collect();
+            let vars2 = vars.clone();
+            let body2 = body.clone();
+            let env2 = env.clone();
+            let cx2 = cx.clone();
+            let f: Box<dyn Fn(&[PTerm]) -> K> = Box::new(move |projected: &[PTerm]| {
+                let mut env3 = env2.clone();
+                for (v, t) in vars2.iter().zip(projected.iter()) {
+                    env_set(&mut env3, *v, t.clone());
+                }
+                let lists: Vec<Vec<K>> = body2.iter().map(|g| vec![build::<K>(g, &env3, &cx2)]).collect();
+                let refs: Vec<&[K]> = lists.iter().map(|v| v.as_slice()).collect();
+                GoalCast::cast_into(InferredConj::<SimUser, Eng, K>::from_conjunctions(&refs))
+            });
+            GoalCast::cast_into(Project::<SimUser, Eng, K>::new(pvars, f))
         }
         G::Prim(f, a, b) => K::dynamic(Rc::new(PrimGoal {
             f: *f,
